@@ -7,7 +7,7 @@ dominator trees.  "X dominates Y" is decided as "on every explored path Y is pre
 X", which is robust against if<->switch, extracted helpers and reordered independent
 statements.
 """
-from ..interp import Obj, Sym, Arr, View, NORETURN
+from ..interp import Obj, Sym, Arr, View, NORETURN, _Ref, ElemPlace
 from ..build import AnalysisBroken
 from .. import lib_c14 as L
 
@@ -102,13 +102,20 @@ def run(P, rep, tier):
                        'exit-family calls end the path). Decides: temp files are registered for exit-time cleanup, cleanup is installed before any temp exists '
                        'and unlinks all of them, the parent never terminates past its atexit handlers and the child never runs them, every non-zero wait status '
                        '(exit code or signal) stops the driver with a non-zero status, the user-visible output is opened only after every phase that can '
-                       'fail has returned, the per-input pipeline order. Does not decide behaviour under real kill points or real concurrent schedules; '
+                       'fail has returned, the per-input pipeline order; for a fixed set of concrete command lines (each mode, with/without -o, multi-dot input names) '
+                       'the file names handed to the stages and opened in cc1 are exactly the requested outputs and every inter-stage file is a mkstemp name (R14.8); '
+                       'a failed open of an input is fatal or reported upwards at every level of the call chain (R14.9). '
+                       'Does not decide behaviour under real kill points or real concurrent schedules; '
                        'temp-name uniqueness is decided only as "names come from mkstemp".')
     rep.assumptions += ['wait status encoding of Linux/glibc (low 7 bits signal, bit 7 core, bits 8-15 exit code)',
                         'wait() returns -1 without writing the status when the caller has no child',
                         'loops over argument lists are analysed for 0..k generic iterations (k=1, main: 2)',
                         'assert() failures are internal errors (R13.4) and are not counted as driver terminations',
-                        'a function whose address is taken counts as called from the function that takes it']
+                        'a function whose address is taken counts as called from the function that takes it',
+                        'R14.8: the state after option parsing is described by the option globals of main.c (opt_c, opt_S, opt_E, opt_M, opt_MD, opt_MF, opt_o, input_paths, base_file, output_file), all other statics are zero; '
+                        'requested names follow the cc convention: <base name of the input with its last suffix replaced> in the current directory, a.out for a link, the -o operand verbatim; '
+                        'libc string functions (strdup, strchr, strrchr, basename, dirname, strcmp, strncmp, strlen, strstr, strcpy, strcat, strndup) and format() behave as specified by ISO C / POSIX',
+                        'R14.9: fopen with a literal read mode is the only way an input is opened; a failure is reported by a constant return value']
     cg = L.CallGraph(P)
     reach_main = cg.reach('main')
     facts = {}
@@ -839,6 +846,11 @@ def r148(P, u, rep, cg, facts):
     if any(g not in u.globals for g in need):
         rep.undecided('R14.8', '%s:main:option-globals' % U, 'option globals %s not all found' % '/'.join(need))
         return
+    gone = [f for f in SUBPROC if f not in u.functions]
+    if gone:
+        rep.undecided('R14.8', '%s:main:stage-functions' % U, 'pipeline stage function(s) %s vanished: stage calls cannot be observed' % ', '.join(gone))
+        _r148_cc1(P, u, rep, cg)
+        return
     tmp_fns = sorted(facts.get('tmp_fns', ()))
     pure = _pure_string_fns(u, cg)
 
@@ -883,9 +895,15 @@ def r148(P, u, rep, cg, facts):
                                   % (sc, ins, out[1], tuple(a for a in out[2][:2] if isinstance(a, str))), where='%s:%d' % (U, out[3]))
                 continue
             nret += 1
+            if ctx.decisions:
+                # the command line fixes the whole driver state: a path that depends on a choice the interpreter had to
+                # make (an unmodelled helper, state from outside main.c) does not belong to this command line for sure
+                rep.undecided('R14.8', key0 + ':state-not-concrete', 'scenario %s: the path through main depends on values the model leaves open (%s)' % (sc, ' / '.join(_fmt_path(ctx, 3))), where=w)
+                continue
             _check_pipeline_names(rep, key0, sc, ctx, ins, expect, w)
         if nret == 0:
             rep.undecided('R14.8', key0 + ':no-success-path', 'no path of main returns for scenario %s' % sc)
+    _r148_handover(P, u, rep, cg, facts, pure)
     _r148_cc1(P, u, rep, cg)
 
 
@@ -1187,3 +1205,80 @@ def _open_failure_outcome(P, cg, cu, H, G, site, c, alldefs, terminators):
             if isinstance(v, View):
                 return 'undecided', 'the successful return value of %s may or may not equal its failure value %r' % (H, fv)
     return 'reported', fv
+
+
+def _r148_handover(P, u, rep, cg, facts, pure):
+    """the names main gives run_cc1 are the names the cc1 process works with: the argument vector run_cc1 builds is
+    parsed by parse_args into base_file / output_file (both interpreted over concrete strings)"""
+    launchers = sorted(facts.get('fork_fns', ()))
+    if 'run_cc1' not in u.functions or 'parse_args' not in u.functions or not launchers:
+        rep.undecided('R14.8', '%s:run_cc1:handover-anchors' % U, 'run_cc1 / parse_args / the subprocess launcher not all found')
+        return
+    base = ['chibicc', '-c', 'x.c']
+    src = 'sub.d/net.v4.c'
+    w = _where(u.fn('run_cc1'))
+    for sc, outname in (('with-output', '/tmp/chibicc-T.v1'), ('stdout', None)):
+        key0 = '%s:run_cc1:%s' % (U, sc)
+        argv = Arr([L.cbuf(x, 'argv') for x in base] + [0], label='argv')
+        inp = L.cbuf(src, 'input')
+        outp = L.cbuf(outname, 'output') if outname is not None else 0
+        try:
+            it = L.make_interp(P, u, opaque=[f for f in u.functions if f not in pure and f != 'run_cc1'], extra_models=L.string_models(),
+                               globals_=_zero_statics(u, {}), loop_limit=1)
+            ps = it.explore('run_cc1', lambda ctx: [len(base), _Ref(ElemPlace(argv, 0)), inp, outp], max_paths=200)
+        except AnalysisBroken as e:
+            rep.undecided('R14.8', key0 + ':interpretation', str(e))
+            continue
+        rets = [(c, o) for c, o in ps if o[0] == 'ret']
+        if len(rets) != 1 or rets[0][0].decisions:
+            rep.undecided('R14.8', key0 + ':paths', 'run_cc1 has %d returning paths on concrete arguments (expected one, without open choices)' % len(rets))
+            continue
+        ctx = rets[0][0]
+        launched = L.calls_of(ctx, launchers)
+        if len(launched) != 1 or not launched[0][2]:
+            rep.undecided('R14.8', key0 + ':launch', 'run_cc1 does not launch exactly one subprocess')
+            continue
+        a = launched[0][2][0]
+        arr = a if isinstance(a, Arr) else (a.place.arr if isinstance(a, _Ref) and isinstance(a.place, ElemPlace) and isinstance(a.place.arr, Arr) and a.place.i == 0 else None)
+        copied = any(len(e[2]) >= 2 and (e[2][0] is arr or (isinstance(e[2][0], _Ref) and isinstance(e[2][0].place, ElemPlace) and e[2][0].place.arr is arr))
+                     and isinstance(e[2][1], _Ref) and isinstance(e[2][1].place, ElemPlace) and e[2][1].place.arr is argv for e in L.calls_of(ctx, 'memcpy'))
+        if arr is None or not copied:
+            rep.undecided('R14.8', key0 + ':argument-vector', 'the argument vector handed to %s is not a fresh array that starts with a copy of argv' % launchers[0])
+            continue
+        tail = list(arr.elems[len(base):])
+        while tail and isinstance(tail[-1], int) and tail[-1] == 0:
+            tail.pop()
+        if any(L.cstr(x) is None for x in tail):
+            rep.undecided('R14.8', key0 + ':argument-vector', 'the arguments appended by run_cc1 are not all concrete strings')
+            continue
+        argv2 = Arr([L.cbuf(x, 'argv') for x in base] + [x if not isinstance(x, str) else L.cbuf(x, 'lit') for x in tail] + [0], label='argv2')
+        models = dict(L.string_models())
+        models['strarray_push'] = _m_strarray_push
+        try:
+            it = L.make_interp(P, u, opaque=[f for f in u.functions if f not in pure and f != 'parse_args'], extra_models=models,
+                               globals_=_zero_statics(u, {}), loop_limit=1)
+            ps = it.explore('parse_args', lambda ctx: [len(argv2.elems) - 1, _Ref(ElemPlace(argv2, 0))], max_paths=200)
+        except AnalysisBroken as e:
+            rep.undecided('R14.8', key0 + ':parse_args-interpretation', str(e))
+            continue
+        rets = [(c, o) for c, o in ps if o[0] == 'ret']
+        if len(rets) != 1 or rets[0][0].decisions or len(ps) != 1:
+            rep.undecided('R14.8', key0 + ':parse_args-paths', 'parse_args on the vector built by run_cc1 (%s) has %d paths, %d returning (expected exactly one, without open choices)'
+                          % (' '.join(L.cstr(x) for x in argv2.elems[:-1]), len(ps), len(rets)))
+            continue
+        g = rets[0][0].globals
+        got_in, got_out, got_cc1 = g.get('base_file', 0), g.get('output_file', 0), g.get('opt_cc1', 0)
+        shown = ' '.join(L.cstr(x) for x in argv2.elems[:-1])
+        rep.ob('R14.8', key0 + (':runs-as-cc1' if got_cc1 else ':not-a-cc1-process'), bool(got_cc1) and not isinstance(got_cc1, (Sym, View)),
+               'the child started by run_cc1 (%s) does not take the cc1 role: it would run the whole driver again' % shown, where=w)
+        ok = L.cstr(got_in) == src
+        rep.ob('R14.8', key0 + (':input-name-handed-over' if ok else ':input-name-lost'), ok,
+               'run_cc1(input=%r) starts `%s`, which parse_args reads as base_file=%r: the cc1 process does not compile the input the driver chose' % (src, shown, L.cstr(got_in) if L.cstr(got_in) is not None else got_in), where=w)
+        if outname is not None:
+            ok = L.cstr(got_out) == outname
+            rep.ob('R14.8', key0 + (':output-name-handed-over' if ok else ':output-name-lost'), ok,
+                   'run_cc1(output=%r) starts `%s`, which parse_args reads as output_file=%r: the cc1 process writes somewhere else than the file the next stage reads' % (outname, shown, L.cstr(got_out) if L.cstr(got_out) is not None else got_out), where=w)
+        else:
+            ok = isinstance(got_out, int) and got_out == 0
+            rep.ob('R14.8', key0 + (':no-output-name-means-stdout' if ok else ':output-name-invented'), ok,
+                   'run_cc1(output=NULL) starts `%s`, which parse_args reads as output_file=%r instead of none (standard output)' % (shown, L.cstr(got_out) if L.cstr(got_out) is not None else got_out), where=w)
